@@ -195,14 +195,22 @@ def minimise(engine: Engine, slot, history: dict, target: dict, budget=70):
             cur, best_v = cand, v
     for pk, pr in list(cur["pops"].items()):
         for mr in (1, 2, 3):
-            if pr["max_rows"] > mr:
+            if pr.get("max_rows", 0) > mr:
                 cand = copy.deepcopy(cur)
                 cand["pops"][pk]["max_rows"] = mr
                 v = fails(cand)
                 if v is not None:
                     cur, best_v = cand, v
                     break
-    used = {o.get("pop") for o in cur["ops"] if o.get("pop")}
+    used = {o.get("pop") for o in cur["ops"] if o.get("pop")} | {o["compute"]["pop"] for o in cur["ops"] if o.get("compute")}
+    grew = True
+    while grew:  # bases of derived populations stay
+        grew = False
+        for k in list(used):
+            b = cur["pops"].get(k, {}).get("derive")
+            if isinstance(b, str) and b not in used:
+                used.add(b)
+                grew = True
     cur["pops"] = {k: v for k, v in cur["pops"].items() if k in used}
     return cur, best_v, spent[0]
 
@@ -369,7 +377,8 @@ def run_check(tier: str, seed: int, runs: int | None = None, parallel: int | Non
                 confirms.append(sorted(jdump(vkey(x)) for x in vio if vkey(x) == vkey(v2)))
             if not all(confirms) or any(c != confirms[0] for c in confirms):
                 raise HarnessError(f"violation in run {i} does not replay identically in cold interpreters: {v2} / {confirms}")
-            path = write_replay(PROP, seed, i, {"history": small, "violation": v2, "violation_key": vkey(v2), "original_ops": len(history["ops"]), "minimised_ops": len(small["ops"]), "shrink_candidates": spent, "replay_cmd": f"./check replay replays/{PROP}-{seed}-{i}.json"})
+            tag = f"{i}-{len(new_violation_lines)}"
+            path = write_replay(PROP, seed, tag, {"history": small, "violation": v2, "violation_key": vkey(v2), "original_ops": len(history["ops"]), "minimised_ops": len(small["ops"]), "shrink_candidates": spent, "replay_cmd": f"./check replay replays/{PROP}-{seed}-{tag}.json"})
             new_violation_lines.append(f"VIOLATION property={PROP} replay={path}")
             log(f"  violation: {jdump(v2)}")
             exit_code = EXIT_VIOLATION
